@@ -12,6 +12,7 @@ import DracoProofs.EbAttViews
 import DracoProofs.EbRoundtripExample
 import DracoProofs.EbConnNoOpp
 import DracoProofs.EbFinal3
+import DracoProofs.EbSplitFreeLink
 /-
   C01 (staging) — facts about the Edgebreaker mesh decoder model (DracoModel/Eb*.lean).
   The model is tied to the real decoder by the correspondence of C01 (tools/props/ebcases.py);
@@ -967,6 +968,53 @@ theorem eb_connectivity_roundtrip_partial_disjoint (ch : ConnChoices) (pf : Face
 
 example (ch : ConnChoices) : EbConnectivityRoundtrip ch false (triFaces 5) #[] :=
   triRoundtripGoal ch 5 (by decide) (by decide)
+
+/-- **eb_connectivity_roundtrip_splitfree_partial** — the connectivity link for SPLIT-FREE traversals of ARBITRARY meshes:
+    a successful `encodeConnectivity` (standard traversal, no attribute data, every encoder choice `ch`) whose symbols contain
+    no S (`hnoS`; then no topology split event is recorded: `noS_of_main`) and whose start faces are all boundary starts
+    (`hstart`) — i.e. components traversed with C / R / L / E only: strips, fans, discs —, inside the decoder's domain checks
+    (`hnf`, `hnv`, the edge-count check `hedge`), with one start-face flag per symbol E (`hE`; holds on every run, not yet
+    derived from the encoder's loops) ⇒ the decoder's connectivity stage reads exactly the encoder's bytes and rebuilds a
+    corner table ISOMORPHIC (`CTIso`) to the encoder's.  No hypothesis about running the decoder.  Proof: encoder trace
+    (`EncTrace.trace_of_run`: timestamped invariant through the encoder's loops) → pure decoder simulation
+    (`DecSim.inv_step`, `ctIso_of_inv`: the decoder's `opp` is the induced sub-table on the faces decoded so far) → monadic
+    glue (`DecSim.connLoop_St`: `connLoop` on any reader state delivering the symbols returns the pure state) → stream level
+    (`ConnGlue.link_of_loop'`, `encode_bytes_splitfree'`). -/
+theorem eb_connectivity_roundtrip_splitfree_partial (ch : ConnChoices) (pf : Faces) (conn : ConnEnc)
+    (h : encodeConnectivity ch false pf #[] = .ok conn)
+    (hnoS : ∀ x, x ∈ conn.symbols.toList → x ≠ topoS)
+    (hstart : ∀ b, b ∈ conn.startFaces.toList → b = false)
+    (hE : conn.startFaces.size = conn.symbols.toList.count 7)
+    (hnf : conn.processed.size ≤ 2 ^ 21)
+    (hnv : conn.ct.numVertices - conn.ct.numIsolated ≤ 3 * 2 ^ 21)
+    (hedge : 3 * conn.processed.size / 2 ≤
+      (conn.ct.numVertices - conn.ct.numIsolated) * (conn.ct.numVertices - conn.ct.numIsolated - 1) / 2) :
+    ∃ mesh, Runs decodeConnectivity 514 ([0] ++ conn.bytes) mesh 514 ∧
+      CTIso conn.ct conn.processed mesh.numFaces mesh.c2v mesh.opp ∧ mesh.atts.size = conn.atts.size :=
+  SplitFreeLink.eb_connectivity_roundtrip_splitfree_closed ch pf conn h hnoS hstart hE hnf hnv hedge
+
+/-- a closed fan of four triangles around the interior vertex 0 (symbols C R R E) glued to nothing else -/
+def fan4 : Faces := #[(0, 1, 2), (0, 2, 3), (0, 3, 4), (0, 4, 1)]
+def fan4Conn : ConnEnc :=
+  match encodeConnectivity exCh.conn false fan4 #[] with
+  | .ok c => c
+  | .error _ => default
+
+theorem fan4Encode : encodeConnectivity exCh.conn false fan4 #[] = .ok fan4Conn := by
+  have h : (match encodeConnectivity exCh.conn false fan4 #[] with | .ok _ => true | .error _ => false) = true := by
+    decide +kernel
+  unfold fan4Conn
+  split at h
+  · rename_i e he; rw [he]
+  · exact absurd h (by decide)
+
+/-- non-vacuity: the fan (a C symbol closes it), the model's own run; every hypothesis by kernel evaluation -/
+example : fan4Conn.symbols = #[0, 5, 5, 7] ∧ ∃ mesh, Runs decodeConnectivity 514 ([0] ++ fan4Conn.bytes) mesh 514 ∧
+    CTIso fan4Conn.ct fan4Conn.processed mesh.numFaces mesh.c2v mesh.opp :=
+  ⟨by decide +kernel, by
+    obtain ⟨mesh, h1, h2, _⟩ := eb_connectivity_roundtrip_splitfree_partial exCh.conn fan4 fan4Conn fan4Encode
+      (by decide +kernel) (by decide +kernel) (by decide +kernel) (by decide +kernel) (by decide +kernel) (by decide +kernel)
+    exact ⟨mesh, h1, h2⟩⟩
 
 end ConnectivityLink
 
